@@ -75,7 +75,7 @@ def _run_task_inner(task):
         mod = _load_property(pid)
         from vcgen import harness
 
-        contract = {c.name: c for c in harness.all_contracts(mod)}[cname]
+        contract = harness.lookup_contract(mod, cname)
         inst = {i.name: i for i in contract.instances(tier)}[iname]
         r = harness.verify_instance(contract, inst, seed=seed, tier=tier)
         out = r.__dict__.copy()
@@ -104,6 +104,30 @@ def _run_extra(pid, tier, seed):
 
 def _error_result(task, msg):
     return {"contract": task[1], "instance": task[2], "error": msg, "obligations": 0, "discharged": 0, "failed": [], "undecided": [], "by_backend": {}, "inherited": [], "solver_s": {}, "wall_s": 0.0, "samples": [], "kernel_calls": {}, "prims_seen": {}, "selfcheck": {}, "num_eqns": 0, "assumptions_used": 0}
+
+
+def _run_pool(tasks, jobs, tier):
+    results = []
+    if not tasks:
+        return results
+    ctx = mp.get_context("spawn")
+    task_timeout = float(os.environ.get("VERIF_TASK_TIMEOUT", "600" if tier == "quick" else "3600"))
+    pool = ctx.Pool(min(jobs, len(tasks)), initializer=_worker_init, maxtasksperchild=8)
+    try:
+        pending = [(t, pool.apply_async(_run_task, (t,))) for t in tasks]
+        # every unit has its own time limit (alarm inside the worker); the parent only guards against a stuck pool
+        rounds = -(-len(tasks) // max(1, min(jobs, len(tasks))))
+        deadline = time.time() + task_timeout * (rounds + 1)
+        for t, ar in pending:
+            try:
+                results.append(ar.get(timeout=max(1.0, deadline - time.time())))
+            except mp.TimeoutError:
+                results.append(_error_result(t, f"checker-error: verification unit did not finish within {task_timeout:.0f}s (undecided, not a violation)"))
+            except Exception as e:  # worker died
+                results.append(_error_result(t, f"checker-error: worker failed: {e!r}"))
+    finally:
+        pool.terminate()
+    return results
 
 
 def load_known(pid):
@@ -167,24 +191,23 @@ def main(argv=None):
             tasks.append((pid, c.name, inst.name, seed, tier))
     extra_results = []
     results = []
-    if tasks:
-        ctx = mp.get_context("spawn")
-        task_timeout = float(os.environ.get("VERIF_TASK_TIMEOUT", "600" if tier == "quick" else "3600"))
-        pool = ctx.Pool(min(args.jobs, len(tasks)), initializer=_worker_init, maxtasksperchild=8)
-        try:
-            pending = [(t, pool.apply_async(_run_task, (t,))) for t in tasks]
-            # every unit has its own time limit (alarm inside the worker); the parent only guards against a stuck pool
-            rounds = -(-len(tasks) // max(1, min(args.jobs, len(tasks))))
-            deadline = time.time() + task_timeout * (rounds + 1)
-            for t, ar in pending:
-                try:
-                    results.append(ar.get(timeout=max(1.0, deadline - time.time())))
-                except mp.TimeoutError:
-                    results.append(_error_result(t, f"checker-error: verification unit did not finish within {task_timeout:.0f}s (undecided, not a violation)"))
-                except Exception as e:  # worker died
-                    results.append(_error_result(t, f"checker-error: worker failed: {e!r}"))
-        finally:
-            pool.terminate()
+    results += _run_pool(tasks, args.jobs, tier)
+    # delegation contracts of the backend wrappers behind every kernel the units above relied on (contracts/backend.py):
+    # the kernel contract is assumed for the JAX routine, the wrapper's own body is repository code
+    from contracts import backend as _backend
+
+    used = {k for r in results for k in (r.get("kernel_calls") or {})}
+    tasks2, seen = [], set()
+    for k in sorted(used):
+        c = _backend.by_kernel().get(k)
+        if c is None or c.name in seen:
+            continue
+        seen.add(c.name)
+        for inst in c.instances(tier):
+            if args.only and args.only not in c.name + "/" + inst.name:
+                continue
+            tasks2.append((pid, c.name, inst.name, seed, tier))
+    results += _run_pool(tasks2, args.jobs, tier)
     if hasattr(mod, "extra_checks") and not args.only:
         # extra (bounded / structural) checks run the real code natively: in a worker with a time limit, so that a
         # change that makes the real code loop forever ends as a checker error instead of hanging the check
@@ -377,7 +400,7 @@ def _shorten(s):
 TRUSTED_COMMON = [
     "CPython + jax.make_jaxpr as the mechanical extractor of the real function's program",
     "vcgen.interp: semantics of the interpreted lax primitives (elementwise by definition, data movement by index tracing with the real primitive)",
-    "kernel contracts (axioms) for qr_r / solve_triu / solve_tril / solve_lu / lstsq_svd / hypot / random.*; validated numerically at the self-check points on every run, not proved; linear solves are memoised up to the sign of the right-hand side (solve(A,-b) = -solve(A,b))",
+    "kernel contracts (axioms) for qr_r / solve_triu / solve_tril / solve_lu / lstsq_svd / hypot / random.*; validated numerically at the self-check points on every run, not proved; linear solves are memoised up to the sign of the right-hand side (solve(A,-b) = -solve(A,b)). The assumption is about the JAX routine (jnp.linalg.qr/lstsq/solve, jax.scipy.linalg.solve_triangular, jnp.hypot at their default tolerances); the repository's wrapper around it is under a delegation contract (contracts/backend.py: same operands in the same order, documented options, result returned unchanged) that every check discharges for each kernel its units used. The random.* wrappers and qr_r's custom JVP rule (C16) are not covered by delegation contracts",
     "specification-only ghost kernels: ghost_inverse (two-sided inverse; its existence is an inherited precondition), ghost_parent (the kernel output a block was cut from), lstsq row-space witness",
     "axioms about elementary functions used in SMT queries: sqrt/abs/sign/min/max definitions, guarded reciprocals, sign and monotonicity facts of real powers, 2-ulp enclosures of logarithms of constants, b^e >= r <=> e log b >= log r for constant b > 1, bracketing of ceil/floor (integrality not modelled)",
     "uninterpreted functions (vector fields, constraints, Taylor-point rules) with uninterpreted Jacobians: instances are treated as independent symbols (no congruence axiom): sound for proofs, counter-models are checked for functional consistency before they are accepted",
